@@ -168,6 +168,12 @@ void scenario_solver(ctx_t& c)
         solver->lsearch0(r.pick(lsearch0_t::all().ids()));
         solver->lsearchk(r.pick(lsearchk_t::all().ids()));
     }
+    if (r.coin(0.5))
+    {
+        // parameters changed on the configured instance, as a user would before sharing it
+        const auto c1 = std::pow(10.0, r.real(-5.0, -1.0));
+        solver->parameter("solver::tolerance") = std::make_tuple(c1, r.real(std::min(0.9, 2.0 * c1), 0.95));
+    }
     struct job_t
     {
         int           kind;
@@ -192,11 +198,20 @@ void scenario_solver(ctx_t& c)
     c.sample = "shared solver " + id + " lsearch0=" + solver->lsearch0().type_id() + " lsearchk=" + solver->lsearchk().type_id() +
                " threads=" + std::to_string(nthreads);
 
-    // alone
+    // alone: before or after the concurrent calls ("the same call executed alone" - a first serial call must not be needed
+    // to make the instance safe to share)
     std::vector<min_result_t> solo, conc(jobs.size());
-    for (const auto& j : jobs)
+    const bool                solo_first = r.coin();
+    const auto                run_solo   = [&]
     {
-        solo.push_back(minimize(*solver, j.kind, j.dims, j.fseed, j.x0));
+        for (const auto& j : jobs)
+        {
+            solo.push_back(minimize(*solver, j.kind, j.dims, j.fseed, j.x0));
+        }
+    };
+    if (solo_first)
+    {
+        run_solo();
     }
     // concurrently on the one shared instance
     {
@@ -210,6 +225,11 @@ void scenario_solver(ctx_t& c)
         {
             t.join();
         }
+    }
+    if (!solo_first)
+    {
+        run_solo();
+        c.probe("solver_shared_before_any_serial_call");
     }
     for (size_t t = 0; t < jobs.size(); ++t)
     {
@@ -279,8 +299,12 @@ void scenario_loss(ctx_t& c)
             o.threw = true;
         }
     };
-    out_t solo;
-    call(solo, false);
+    out_t      solo;
+    const bool solo_first = r.coin(); // (the call alone comes before or after the concurrent ones)
+    if (solo_first)
+    {
+        call(solo, false);
+    }
     std::vector<out_t> conc(static_cast<size_t>(nthreads));
     {
         std::vector<std::thread> threads;
@@ -292,6 +316,10 @@ void scenario_loss(ctx_t& c)
         {
             t.join();
         }
+    }
+    if (!solo_first)
+    {
+        call(solo, false);
     }
     for (const auto& o : conc)
     {
@@ -466,9 +494,17 @@ void scenario_dataset(ctx_t& c)
                " columns=" + std::to_string(d.dataset->columns()) + " pool=" + std::to_string(d.dataset->concurrency()) + " threads=" +
                std::to_string(nthreads) + " batch=" + std::to_string(batch);
     std::vector<view_t> solo, conc(lists.size());
-    for (const auto& l : lists)
+    const bool          solo_first = r.coin(); // (the calls alone come before or after the concurrent ones)
+    const auto          run_solo   = [&]
     {
-        solo.push_back(dataset_views(*d.dataset, l, batch, false));
+        for (const auto& l : lists)
+        {
+            solo.push_back(dataset_views(*d.dataset, l, batch, false));
+        }
+    };
+    if (solo_first)
+    {
+        run_solo();
     }
     {
         std::vector<std::thread> threads;
@@ -481,6 +517,10 @@ void scenario_dataset(ctx_t& c)
         {
             t.join();
         }
+    }
+    if (!solo_first)
+    {
+        run_solo();
     }
     for (size_t t = 0; t < lists.size(); ++t)
     {
@@ -642,9 +682,17 @@ void scenario_model(ctx_t& c)
         return o;
     };
     std::vector<out_t> solo, conc(lists.size());
-    for (const auto& l : lists)
+    const bool         solo_first = r.coin(); // (the calls alone come before or after the concurrent ones)
+    const auto         run_solo   = [&]
     {
-        solo.push_back(call(l, false));
+        for (const auto& l : lists)
+        {
+            solo.push_back(call(l, false));
+        }
+    };
+    if (solo_first)
+    {
+        run_solo();
     }
     {
         std::vector<std::thread> threads;
@@ -656,6 +704,10 @@ void scenario_model(ctx_t& c)
         {
             t.join();
         }
+    }
+    if (!solo_first)
+    {
+        run_solo();
     }
     for (size_t t = 0; t < lists.size(); ++t)
     {
